@@ -5,9 +5,10 @@ W=$1; P=$2; CH=$3; NEEDS=$4
 OUT=$(/verif/tools/confirm_seed.sh $W $P 2>&1); echo "$OUT" | tail -4
 D=$(echo "$OUT" | sed -n 's/^filed as //p')
 [ -n "$D" ] || { echo "NOT CONFIRMED: $W kept"; exit 1; }
-python3 - "$D" "$P" "$CH" "$NEEDS" <<'PY'
+BASE=$(git -C $W rev-parse --short HEAD)
+python3 - "$D" "$P" "$CH" "$NEEDS" "$BASE" <<'PY'
 import json,sys,os
-d,p,ch,needs=sys.argv[1:5]
-json.dump({"id":os.path.basename(d),"property":p,"checks":[p],"origin":"independent sub-agent given only the property text and a scratch worktree","change":ch,"needs_to_manifest":needs,"confirmed":"tools/confirm_seed.sh: with the change the repository builds, the full existing suite passes and TestSeedDemo fails; without it TestSeedDemo passes","detection":"see result-quick.txt (tools/run_seeded.sh)"},open(d+"/meta.json","w"),indent=1)
+d,p,ch,needs,base=sys.argv[1:6]
+json.dump({"id":os.path.basename(d),"property":p,"checks":[p],"base":base,"origin":"independent sub-agent given only the property text and a scratch worktree","change":ch,"needs_to_manifest":needs,"confirmed":"tools/confirm_seed.sh: with the change the repository builds, the full existing suite passes and TestSeedDemo fails; without it TestSeedDemo passes","detection":"see result-quick.txt (tools/run_seeded.sh)"},open(d+"/meta.json","w"),indent=1)
 PY
 git -C /repo worktree remove --force $W
